@@ -124,6 +124,7 @@ func cmdCheck(args []string) int {
 	eng.reachNotes = *verbose || *tier == "thorough"
 	if *tier == "thorough" {
 		eng.timeout = 60
+		eng.crossCheck = true
 	}
 	if *timeout > 0 {
 		eng.timeout = *timeout
@@ -237,6 +238,7 @@ func cmdCheck(args []string) int {
 
 func (eng *Engine) report(prop, tier, verifDir string, units []*FuncUnit, reports []*FuncReport, known []KnownFinding, loadSecs float64, start time.Time, noEvidence, verbose, partial bool) int {
 	total, discharged, canaries := 0, 0, 0
+	confirmed, unconfirmed := 0, 0
 	var failed []*Obligation
 	var brokenMsgs []string
 	brokenMsgs = append(brokenMsgs, eng.broken...)
@@ -287,6 +289,13 @@ func (eng *Engine) report(prop, tier, verifDir string, units []*FuncUnit, report
 			kinds[o.Kind]++
 			if o.Status == "error" {
 				brokenMsgs = append(brokenMsgs, fmt.Sprintf("solver rejected the VC of %s: %s", o.Name, strings.SplitN(o.Output, "\n", 2)[0]))
+			}
+			if o.Second == "unsat" {
+				confirmed++
+			} else if o.Second == "sat" && o.Status == "unsat" {
+				brokenMsgs = append(brokenMsgs, fmt.Sprintf("solver disagreement on %s: %s says unsat, %s says sat", o.Name, o.Solver, o.SecondSolver))
+			} else if o.Second != "" {
+				unconfirmed++
 			}
 			if o.OK() {
 				discharged++
@@ -395,6 +404,9 @@ func (eng *Engine) report(prop, tier, verifDir string, units []*FuncUnit, report
 	wall := time.Since(start).Seconds()
 	fmt.Printf("property %s tier %s: %d functions, %d obligations, %d discharged, %d known findings, %d violations, %d canaries ok; load %.1fs wall %.1fs\n",
 		prop, tier, len(units), total, discharged, len(knownHit), len(violations), canaries, loadSecs, wall)
+	if confirmed+unconfirmed > 0 {
+		fmt.Printf("  cross-check: %d discharged obligations confirmed by a second solver, %d without a second answer in time\n", confirmed, unconfirmed)
+	}
 	if noEvidence || partial {
 		return exit
 	}
@@ -427,6 +439,7 @@ func (eng *Engine) report(prop, tier, verifDir string, units []*FuncUnit, report
 		"obligation_kinds": kinds, "vacuity_canaries_ok": canaries, "solver_time": st,
 		"known_findings_hit": len(knownHit), "undischarged": len(failed), "returns_unreachable_under_assumptions": deadReturns,
 		"abstractions_used": abs, "load_secs": round3(loadSecs),
+		"second_solver_confirmed": confirmed, "second_solver_no_answer": unconfirmed,
 		"integer_semantics": "Go machine integers are SMT Int with range typing; unsigned arithmetic wraps (mod 2^n); signed arithmetic is mathematical unless the function has `safety overflow`; big.Int/Quantity are mathematical integers",
 		"extraction_drops":  "logging/metrics calls and error-message formatting have no modelled effect; callees without contract are abstracted (fresh results; heap havocked); see abstractions_used",
 	}
